@@ -13,6 +13,7 @@ import (
 	"strconv"
 	"strings"
 	"sync"
+	"sync/atomic"
 	"syscall"
 	"time"
 )
@@ -59,14 +60,16 @@ func (j *journal) line(s string) {
 
 // canaryLog keeps the times at which the canary overshot by >= 100 ms.
 var (
-	badMu    sync.Mutex
-	badTimes []time.Time
+	badMu     sync.Mutex
+	badTimes  []time.Time
+	tickStart atomic.Int64 // start of the canary's current 5 ms sleep (unix nanos)
 )
 
 func startCanaryLog() {
 	go func() {
 		for {
 			t0 := time.Now()
+			tickStart.Store(t0.UnixNano())
 			time.Sleep(5 * time.Millisecond)
 			if time.Since(t0) >= 105*time.Millisecond {
 				badMu.Lock()
@@ -79,6 +82,10 @@ func startCanaryLog() {
 
 // LoadedSince reports whether the canary overshot by >= 100 ms at any time since t0.
 func LoadedSince(t0 time.Time) bool {
+	// an overshoot that is still in progress counts too
+	if ts := tickStart.Load(); ts != 0 && time.Since(time.Unix(0, ts)) >= 105*time.Millisecond {
+		return true
+	}
 	badMu.Lock()
 	defer badMu.Unlock()
 	for i := len(badTimes) - 1; i >= 0; i-- {
